@@ -1,6 +1,6 @@
 //! spec -> impl: execute cases / behaviours emitted by TLC.
 use serde_json::Value;
-use sos_verif_harness::{account_world, codec_world, crash_world, crypto_world, leak_world, server_world, upload_world, eventlog_world, sync_world, summary::Summary, tree_world};
+use sos_verif_harness::{account_world, files_world, codec_world, crash_world, crypto_world, leak_world, server_world, upload_world, eventlog_world, sync_world, summary::Summary, tree_world};
 use std::io::BufRead;
 
 fn read_lines(path: &str) -> Vec<Value> {
@@ -207,6 +207,26 @@ fn main() {
                 if let Err(e) = upload_world::run_cases(&cases, &scratch, &mut out, &known).await {
                     eprintln!("harness error: {e:?}");
                     std::process::exit(3);
+                }
+            });
+        }
+        "files" => {
+            // replay files <cases.ndjson> <scratch> <first-index>
+            let scratch = std::path::PathBuf::from(&args[3]);
+            sos_verif_harness::init_audit(&scratch);
+            let cases = read_lines(&args[2]);
+            let first: usize = args.get(4).and_then(|s| s.parse().ok()).unwrap_or(0);
+            let rt = tokio::runtime::Builder::new_multi_thread()
+                .worker_threads(4)
+                .enable_all()
+                .build()
+                .unwrap();
+            rt.block_on(async {
+                for (i, c) in cases.iter().enumerate() {
+                    if let Err(e) = files_world::run_case(first + i, c, &scratch, &mut out).await {
+                        eprintln!("harness error: {e:?}");
+                        std::process::exit(3);
+                    }
                 }
             });
         }
